@@ -7,6 +7,7 @@ mod comp;
 mod peaks;
 mod gens;
 mod spec;
+mod formula;
 mod exec;
 
 fn main() {
